@@ -195,6 +195,37 @@ def c13_alpha_rename(s: str) -> bool:
     return ok
 
 
+def c13_other_templates(layout: int, order: int) -> bool:
+    """
+    Independence across DIFFERENT templates: the instantiation a typedef produces (projection and pybind block) is the
+    same whether or not another template of the same name — in a sibling, enclosing, nested or suffix-related
+    namespace — is declared and instantiated in the same run.
+    pre: 0 <= layout < 5 and 0 <= order <= 1
+    post: _
+    """
+    from harness import c08_product as P
+    layout, order = pick(layout, 0, len(P.SAME_LAYOUTS)), pick(order, 0, 2)
+    with concrete():
+        problems = []
+
+        def blocks(text):
+            mod = ti.instantiate_namespace(parser.Module.parseString(text))
+            w = PybindWrapper(module_name="m", top_module_namespaces=[''], ignore_classes=[''], module_template=pipe.PYBIND_TPL)
+            return {c.name: (w.wrap_instantiated_class(c), p_decl(c)) for n in ("BoxA", "BoxB") for c in P.find_all(mod, n, [])}
+        try:
+            both = blocks(P.build_same_name(layout, order)[0])
+            for alias, kw in (("BoxA", dict(with_second=False)), ("BoxB", dict(with_first=False))):
+                alone = blocks(P.build_same_name(layout, order, **kw)[0])
+                if both.get(alias) != alone.get(alias):
+                    problems.append("%s differs when the other template of the same name is present: %r" % (
+                        alias, [(a, b) for a, b in zip((both.get(alias) or ("",))[0].split("\n"), (alone.get(alias) or ("",))[0].split("\n")) if a != b][:2]))
+        except Exception as ex:
+            problems.append("raised %r" % ex)
+        ok = not problems or _fail(text=P.build_same_name(layout, order)[0], problems=problems)
+    reached({"layout": layout, "order": order})
+    return ok
+
+
 def conds(tier):
     q = tier == "quick"
     t = (lambda x, y: x) if q else (lambda x, y: y)
@@ -204,5 +235,7 @@ def conds(tier):
                 bounds="all 15 ordered non-empty subsets of a 3-element instantiation list, class + function template, pybind"),
         xh.Cond(M, "c13_independence_matlab", t(300, 900), kind="shape-bounded", path_timeout=90, examples=["order=3", "order=0"],
                 bounds="all 15 ordered non-empty subsets, pybind and MATLAB classdefs"),
+        xh.Cond(M, "c13_other_templates", t(120, 600), kind="shape-bounded", examples=["layout=1, order=0", "layout=2, order=1", "layout=0, order=0"],
+                bounds="5 namespace layouts of two same-named templates x 2 typedef orders"),
         xh.Cond(M, "c13_alpha_rename", t(300, 1800), examples=["s='T'", "s='X9'", "s='V'", "s='ts'", "s='s'", "s='ar'", "s='e'"], bounds="all unused identifiers of length <= %d as the parameter name" % (2 if q else 3)),
     ]
